@@ -67,73 +67,47 @@ def features(case):
     if any(l["kind"] == "multiterm" for l in ff["links"]) and any(b["syntax"] == "itp" for b in ff["blocks"]):
         out.append("link-multiterm-file-order")
     nodes = sorted(graph["nodes"], key=lambda n: n[1])
-    if _fragments_out_of_order(graph):
-        out.append("fragments-out-of-insertion-order")
-    if any(n[3] for n in nodes) and graph.get("shape") == "cyclic" and _itp_on_cycle(graph):
-        out.append("fragment-in-ring")
     if nodes and nodes[0][3] and nodes[0][1] != 1:
         out.append("multires-first-resid-not-1")
     if nodes and nodes[0][1] == 0:
         out.append("resid-start-0")
-    names = {m["name"] for m in ff["mods"]}
-    if names and not {"N-ter", "C-ter"} <= names:
-        out.append("mods-without-termini")
-    if any(len(i["atoms"]) != 2 for m in ff["mods"] for i in m["ixns"]):
-        out.append("mod-ixn-arity")
-    if mods:
-        by_resid = {n[1]: n[2] for n in nodes}
-        for resid, resname, _ in real.parse_mods(mods):
-            if resname is not None and by_resid.get(resid) != resname:
-                out.append("mod-resname-ignored")
-                break
     return out
 
 
-def _fragments_out_of_order(graph):
-    """two or more runs of from_itp residues whose first nodes do not appear in resid order, in the given
-    insertion order or in the key-sorted order the .json reader produces"""
-    nodes = sorted(graph["nodes"], key=lambda n: n[1])
-    runs, current = [], []
-    for node in nodes:
-        if node[3]:
-            current.append(node[0])
-        elif current:
-            runs.append(current)
-            current = []
-    if current:
-        runs.append(current)
-    if len(runs) < 2:
+def expected_reject(case):
+    """inputs the program must refuse: a selected (or default terminal) modification that the force field does
+    not define, for a residue it applies to (protein residue name, matching the selection)"""
+    import polyply.src.apply_modifications as am
+    ff, graph, mods = case["ff"], case["graph"], case["mods"]
+    if not ff["mods"]:
         return False
-    insertion = [n[0] for n in graph["nodes"]]
-    orders = [insertion]
-    try:
-        orders.append(sorted(insertion))
-    except TypeError:
-        pass
-    for order in orders:
-        firsts = [min(order.index(k) for k in run) for run in runs]
-        if firsts != sorted(firsts):
+    protein = set(am.protein_resnames.split("|"))
+    defined = {m["name"] for m in ff["mods"]}
+    nodes = sorted(graph["nodes"], key=lambda n: n[1])
+    by_resid = {n[1]: n for n in nodes}
+    if mods:
+        targets = [(resid, resname, name) for resid, resname, name in real.parse_mods(mods)]
+    else:
+        targets = [(nodes[0][1], None, "N-ter"), (nodes[-1][1], None, "C-ter")]
+    for resid, resname, name in targets:
+        node = by_resid.get(resid)
+        if node is None:
+            return True
+        if node[2] not in protein or (resname is not None and resname != node[2]):
+            continue
+        if name not in defined:
+            return True
+        # an interaction of the modification between atoms the residue does not have
+        mod = next(m for m in ff["mods"] if m["name"] == name)
+        block = next((b for b in ff["blocks"] if b["name"] == node[2]), None)
+        have = {a["atomname"] for a in block["atoms"]} if block else set()
+        if any(a not in have for i in mod["ixns"] for a in i["atoms"]):
             return True
     return False
 
 
-def _itp_on_cycle(graph):
-    """is some from_itp node on a cycle of the residue graph?"""
-    import networkx as nx
-    g = nx.Graph()
-    g.add_nodes_from(json.dumps(n[0]) for n in graph["nodes"])
-    g.add_edges_from((json.dumps(u), json.dumps(v)) for u, v in graph["edges"])
-    itp = {json.dumps(n[0]) for n in graph["nodes"] if n[3]}
-    return any(itp & set(cycle) for cycle in nx.cycle_basis(g))
-
-
 def shape_of(case, kind, out=None):
     feats = features(case)
-    if out is not None and "atom-removed-by-link" in feats:
-        removed = {op["node"] for op in out.get("linkops") or [] if op["op"] == "remove"}
-        versions = {1} | {i["meta"].get("version", 1) for b in case["ff"]["blocks"] for i in b["ixns"]}
-        if removed & versions:
-            return "removed-node-id-equals-version"
     return feats[0] if feats else GENERIC[kind]
 
 
@@ -295,10 +269,21 @@ def judge(ctx, case, out, answers, tag="random"):
                     ctx.correspond("mods-accepts", "ok", "reject:" + run["final"].get("err", ""), replay)
             elif out["stage"] == "mods":
                 ctx.correspond("mods-accepts", "reject", "ok" if run["final"]["ok"] else "reject", replay)
+        elif out.get("links") is not None and model_map["ok"]:
+            # a link removed atoms: the residues are renumbered (known finding, not modelled), but the write-back
+            # of the interactions is modelled (`flush`) and compared
+            ctx.correspond("links-interactions-after-removal", canon_ixns(out["links_excl"]["ixns"]),
+                           canon_ixns(run["links"]["ixns"]), replay)
         ctx.traces += 1
     # --- oracle: the property itself on the implementation's output
     verdict = "ok"
-    if not out["ok"]:
+    if expected_reject(case):
+        verdict = "rejected-as-it-must"
+        if out["ok"]:
+            verdict = "accepts-invalid"
+            ctx.oracle_fail("accepts-undefined-modification", "the program accepted a selection whose modification the "
+                            "force field does not define (or whose atoms the residue does not have)", replay)
+    elif not out["ok"]:
         verdict = "reject"
         ctx.oracle_fail(shape_of(case, "reject"),
                         "the program rejected a valid input at stage %s with %s (%s); features %s"
@@ -311,7 +296,11 @@ def judge(ctx, case, out, answers, tag="random"):
                             % "; ".join(spec["diffs"][:3]), replay)
         if frame["diffs"]:
             verdict = "frame"
-            ctx.oracle_fail(shape_of(case, "frame", out),
+            shape = shape_of(case, "frame", out)
+            if shape == "atom-removed-by-link" and set(frame["cats"]) != {"resid"}:
+                # the known finding is the 0-based renumbering only; anything else is a violation of its own
+                shape = GENERIC["frame"]
+            ctx.oracle_fail(shape,
                             "final molecule differs from the block copies where no link or modification "
                             "targets it: %s" % "; ".join(frame["diffs"][:3]), replay)
         e2e = out.get("e2e")
@@ -407,7 +396,7 @@ def run(ctx):
     ctx.extra["explanation"] = "finding streams enabled: %s" % (findings or "none")
     run_batch(ctx, corpus_cases(), "corpus")
     run_batch(ctx, small_cases(rng, ctx.thorough), "small")
-    count = ctx.budget(900, 12000)
+    count = ctx.budget(700, 12000)
     cases = []
     for idx in range(count):
         kw = {}
@@ -423,11 +412,12 @@ def run(ctx):
         sub = random.Random("finding %s %d" % (shape, ctx.seed))
         fcases = []
         tries = 0
-        while len(fcases) < ctx.budget(6, 40) and tries < 2000:
+        while len(fcases) < ctx.budget(24 if shape == "atom-removed-by-link" else 6, 60) and tries < 2000:
             tries += 1
-            case = make_case(sub, findings=(shape,), protein=True if shape.startswith("mod") else None,
+            # (no modifications together with atom removal: they would be applied by the renumbered resids)
+            case = make_case(sub, findings=(shape,), protein=False if shape == "atom-removed-by-link" else None,
                              multires=True if "fragment" in shape or "multires" in shape else None)
-            if shape in features(case) or (shape == "removed-node-id-equals-version" and "atom-removed-by-link" in features(case)):
+            if shape in features(case):
                 fcases.append(case)
         run_batch(ctx, fcases, "finding:" + shape)
 
